@@ -79,10 +79,13 @@ def _xsm_relabellings(rep: C.Report, tier: str):
     """two-field GeV-like model at Tn = 300 (in its units) through WallGoManager, in equivalent labellings of field space"""
     import manager_common as MC
 
-    def run(**relabel):
-        m, model = MC.new_xsm_manager(u=3.0, **relabel)
+    def run(int_guess=False, **relabel):
+        m, model = MC.new_xsm_manager(u=3.0, int_guess=int_guess, **relabel)
         res = m.solveWall(MC.settings())
         Tn = 300.0
+        # phase locations at Tn, mapped back to the reference frame
+        run.phases = [model.from_user(np.asarray(m.thermodynamics.freeEnergyHigh(Tn).fieldsAtMinimum).ravel()),
+                      model.from_user(np.asarray(m.thermodynamics.freeEnergyLow(Tn).fieldsAtMinimum).ravel())]
         W, off = np.asarray(res.wallWidths), np.asarray(res.wallOffsets)
         ih, is_ = relabel.get("perm", (0, 1)).index(0), relabel.get("perm", (0, 1)).index(1)
         # physical separation of the two walls: centre_i = -offset_i * L_i
@@ -90,6 +93,19 @@ def _xsm_relabellings(rep: C.Report, tier: str):
         return {"vw": res.wallVelocity, "success": res.success, "vJ": float(m.hydrodynamics.vJ), "widthH*Tn": float(W[ih] * Tn),
                 "widthS*Tn": float(W[is_] * Tn), "separation*Tn": float(sep * Tn)}
     base = run()
+    base_phases = run.phases
+    # approximate phase locations typed as integers (whole numbers in the natural frame, e.g. Fields([0, 315])); in a frame translated by a
+    # non-integer vector the same guesses are floats: the located phases must be the same points of field space
+    for nm_, kw_ in (("integer-typed guesses", dict(int_guess=True)), ("integer-typed guesses, integer translation", dict(int_guess=True, shift=(-400.0, -250.0)))):
+        got = run(**kw_)
+        ph = run.phases
+        rep.case(key=("xsm-int-guess", nm_))
+        rep.count("xsm runs with integer-typed phase guesses")
+        dev = max(abs(a - b) for P_, Q_ in zip(ph, base_phases) for a, b in zip(P_, Q_))
+        if dev > 1e-3 or got["vw"] is None or abs(got["vw"] - base["vw"]) > 2e-3:
+            rep.violation(f"two-field GeV-like model (Tn=300): {nm_} give different phase locations / wall velocity than the same guesses typed as floats",
+                          {"variant": nm_, "phases_at_Tn(reference frame)": ph, "with_float_guesses": base_phases, "max_deviation": dev,
+                           "vw": got["vw"], "vw_float_guesses": base["vw"]}, finding_key="C08:xsm:integer-guess")
     # "highT-phase-at-origin": the frame in which the metastable phase (0, s_h(Tn)) sits at the origin AT Tn (a common convention); its singlet
     # component is then zero at Tn but not at other temperatures
     sh_Tn = math.sqrt(-((120.0 ** 2 - 0.5 * 0.9 * 246.0 ** 2) + (0.9 / 6 + 1.0 / 4) * 100.0 ** 2) / 1.0)      # in units of u (Tn = 100 u)
